@@ -1,0 +1,8 @@
+//go:build !verif
+
+// Package verifhook marks instants inside multi-step operations (directory swap, store writes, accept/swap
+// of a CRL). Without the build tag verif every call is an empty function.
+package verifhook
+
+// Hit marks the instant called name. It does nothing in regular builds.
+func Hit(name string) {}
